@@ -216,7 +216,7 @@ def gen_case(rng):
         else:
             s[rng.choice("hv")] = None
         return {"kind": "reject", "why": why, "sight": s}
-    mag = rng.choice([1.0, round(rng.uniform(1, 50), 2), float(rng.randint(2, 25))])
+    mag = rng.choice([1.0, round(rng.uniform(1, 50), 2), float(rng.randint(2, 25)), round(rng.uniform(0.25, 0.99), 2)])      # also reducing optics (< 1x)
     switch = [rng.choice(ANG), rng.choice(ANG), rng.random() < 0.5] if rng.random() < 0.3 else None
     if k < 0.8:
         tgt = length(10, 2000)
